@@ -1,0 +1,90 @@
+//go:build verif
+
+package text
+
+// Contracts for gvc (the /verif condition generator). Comment-only: nothing here is compiled
+// into the library; the file exists only under the build tag "verif".
+
+/*@
+axiom spaceFacts: len(space) == 1 && space[0] == ' '
+
+// validSeg(s, n): the segment lies inside a source of length n
+macro validSeg(s, n) = 0 <= s.Start && s.Start <= s.Stop && s.Stop <= n && s.Padding >= 0
+
+func NewSegment
+  ensures result.Start == start && result.Stop == stop && result.Padding == 0 && !result.ForceNewline
+  modifies nothing
+func NewSegmentPadding
+  ensures result.Start == start && result.Stop == stop && result.Padding == n && !result.ForceNewline
+  modifies nothing
+
+// forcedNL(t, buffer): Value appends a newline
+macro segLen(t) = t.Padding + t.Stop - t.Start
+macro forcedNL(t, buffer) = t.ForceNewline && segLen(t) > 0 && (t.Stop > t.Start ? buffer[t.Stop-1] != '\n' : true)
+
+func (*Segment).Value
+  uses spaceFacts
+  requires validSeg(t, len(buffer))
+  ensures [len] len(result) == segLen(t) + (forcedNL(t, buffer) ? 1 : 0)
+  ensures [pad] forall k int :: 0 <= k && k < t.Padding ==> result[k] == ' '
+  ensures [body] forall k int :: t.Padding <= k && k < segLen(t) ==> result[k] == buffer[t.Start + k - t.Padding]
+  ensures [nl] forcedNL(t, buffer) ==> result[len(result)-1] == '\n'
+  ensures [alias] fresh(result) || (arrof(result) == arrof(buffer) && offof(result) == offof(buffer) + t.Start && cap(result) == len(result))
+  ensures [noalloc] (t.Padding == 0 && !forcedNL(t, buffer)) ==> (arrof(result) == arrof(buffer) && offof(result) == offof(buffer) + t.Start)
+  modifies nothing
+
+func (*Segment).Len
+  ensures result == t.Stop - t.Start + t.Padding
+  modifies nothing
+
+func (*Segment).Between
+  requires t.Stop == other.Stop
+  ensures result.Start == t.Start && result.Stop == other.Start && result.Padding == t.Padding - other.Padding && !result.ForceNewline
+  modifies nothing
+
+func (*Segment).IsEmpty
+  ensures result <==> (t.Start >= t.Stop && t.Padding == 0)
+  modifies nothing
+
+func (*Segment).TrimRightSpace
+  requires validSeg(t, len(buffer))
+  ensures validSeg(result, len(buffer)) && result.Start == t.Start && result.Stop <= t.Stop
+  ensures forall k int :: result.Stop <= k && k < t.Stop ==> util.isSpace(buffer[k])
+  ensures result.Stop > result.Start ==> (!util.isSpace(buffer[result.Stop-1]) && result.Padding == t.Padding)
+  ensures result.Stop == result.Start ==> result.Padding == 0
+  modifies nothing
+
+func (*Segment).TrimLeftSpace
+  requires validSeg(t, len(buffer))
+  ensures validSeg(result, len(buffer)) && result.Stop == t.Stop && result.Start >= t.Start && result.Padding == 0
+  ensures forall k int :: t.Start <= k && k < result.Start ==> util.isSpace(buffer[k])
+  ensures result.Start < result.Stop ==> !util.isSpace(buffer[result.Start])
+  modifies nothing
+
+func (*Segment).WithStart
+  ensures result.Start == v && result.Stop == t.Stop && result.Padding == t.Padding && !result.ForceNewline
+  modifies nothing
+func (*Segment).WithStop
+  ensures result.Start == t.Start && result.Stop == v && result.Padding == t.Padding && !result.ForceNewline
+  modifies nothing
+
+func (*Segment).ConcatPadding
+  uses spaceFacts
+  requires t.Padding >= 0
+  requires t.Padding > 0 ==> (owned(v) || cap(v) == len(v))
+  ensures len(result) == len(v) + t.Padding
+  ensures forall k int :: 0 <= k && k < len(v) ==> result[k] == old(v[k])
+  ensures forall k int :: len(v) <= k && k < len(result) ==> result[k] == ' '
+  ensures t.Padding == 0 ==> sameslice(result, v)
+  modifies contents(v)
+
+func (*Segment).TrimLeftSpaceWidth
+  requires validSeg(t, len(buffer))
+  ensures result.Stop == t.Stop && t.Start <= result.Start && result.Padding >= 0
+  ensures result.Start <= t.Stop && (t.Start < t.Stop ==> result.Start < t.Stop)
+  modifies nothing
+  loop 0 inv 0 <= padding && padding <= t.Padding
+  loop 0 dec width
+  loop 1 inv t.Start <= start && (t.Start < t.Stop ==> start < t.Stop) && start <= t.Stop
+  loop 1 inv padding >= 0
+@*/
